@@ -124,6 +124,7 @@ type seqCtx struct {
 	// Count measured by the driver around removing calls: index by rec Ix
 	cntBefore map[int]int
 	cntAfter  map[int]int
+	tree      *recTree
 }
 
 func (c *seqCtx) fail(rule string, f string, a ...interface{}) {
@@ -131,38 +132,56 @@ func (c *seqCtx) fail(rule string, f string, a ...interface{}) {
 }
 
 func (c *seqCtx) reportsIn(r *Rec) []Report {
+	// reports are appended in Seq order
+	lo := sort.Search(len(c.reports), func(i int) bool { return c.reports[i].Seq > r.Call })
 	var out []Report
-	for _, rp := range c.reports {
-		if rp.Seq > r.Call && (r.Ret == 0 || rp.Seq < r.Ret) {
-			out = append(out, rp)
+	for i := lo; i < len(c.reports); i++ {
+		if r.Ret != 0 && c.reports[i].Seq >= r.Ret {
+			break
 		}
+		out = append(out, c.reports[i])
 	}
 	return out
 }
 
-// children: records nested directly inside r.
-func children(recs []*Rec, r *Rec) []*Rec {
-	var all []*Rec
-	for _, q := range recs {
-		if q != r && q.Call > r.Call && q.Ret < r.Ret && q.Ret != 0 {
-			all = append(all, q)
-		}
-	}
-	// keep only the direct ones
-	var out []*Rec
-	for _, q := range all {
-		direct := true
-		for _, p := range all {
-			if p != q && q.Call > p.Call && q.Ret < p.Ret {
-				direct = false
+// recTree: the nesting structure of the records of one instance (a call issued
+// from a visitor or callback lies inside the interval of the enclosing call).
+// Built in one sweep; records are in invocation order.
+type recTree struct {
+	kids map[*Rec][]*Rec
+	tops []*Rec
+}
+
+func buildTree(recs []*Rec) *recTree {
+	t := &recTree{kids: map[*Rec][]*Rec{}}
+	sorted := append([]*Rec(nil), recs...)
+	sort.SliceStable(sorted, func(i, j int) bool { return sorted[i].Call < sorted[j].Call })
+	var stack []*Rec
+	for _, r := range sorted {
+		for len(stack) > 0 {
+			top := stack[len(stack)-1]
+			if top.Ret != 0 && r.Call > top.Call && r.Ret != 0 && r.Ret < top.Ret {
 				break
 			}
+			stack = stack[:len(stack)-1]
 		}
-		if direct {
-			out = append(out, q)
+		if len(stack) == 0 {
+			t.tops = append(t.tops, r)
+		} else {
+			p := stack[len(stack)-1]
+			t.kids[p] = append(t.kids[p], r)
 		}
+		stack = append(stack, r)
 	}
-	sort.Slice(out, func(i, j int) bool { return out[i].Call < out[j].Call })
+	return t
+}
+
+// descendants: every record nested at any depth inside r.
+func (t *recTree) descendants(r *Rec, out []*Rec) []*Rec {
+	for _, k := range t.kids[r] {
+		out = append(out, k)
+		out = t.descendants(k, out)
+	}
 	return out
 }
 
@@ -170,17 +189,9 @@ func children(recs []*Rec, r *Rec) []*Rec {
 // TTL model: the top-level records in order, nested ones (issued by visitors
 // and callbacks) at the point of the enclosing call where they really ran.
 func (c *seqCtx) checkTop() {
-	for _, r := range c.recs {
-		top := true
-		for _, p := range c.recs {
-			if p != r && r.Call > p.Call && r.Ret < p.Ret && p.Ret != 0 {
-				top = false
-				break
-			}
-		}
-		if top {
-			c.checkRec(r)
-		}
+	c.tree = buildTree(c.recs)
+	for _, r := range c.tree.tops {
+		c.checkRec(r)
 	}
 }
 
@@ -188,12 +199,13 @@ func (c *seqCtx) expectReports(r *Rec, mustK map[int]int64, mayK map[int]int64) 
 	got := c.reportsIn(r)
 	// reports produced by nested removing calls belong to those calls
 	var own []Report
+	desc := c.tree.descendants(r, nil)
 	for _, rp := range got {
 		nested := false
-		for _, q := range c.recs {
-			if q != r && q.Call > r.Call && q.Ret < r.Ret && q.Ret != 0 && rp.Seq > q.Call && rp.Seq < q.Ret {
+		for _, q := range desc {
+			if rp.Seq > q.Call && rp.Seq < q.Ret {
 				switch q.Op.K {
-				case CDelete, CGetAndDelete, CDeleteExpired:
+				case CDelete, CGetAndDelete, CDeleteExpired, XAdvance:
 					nested = true
 				}
 			}
@@ -239,12 +251,7 @@ func (c *seqCtx) expectReports(r *Rec, mustK map[int]int64, mayK map[int]int64) 
 	// R6: #reports == Count delta
 	if b, ok := c.cntBefore[r.Ix]; ok {
 		a := c.cntAfter[r.Ix]
-		nestedEffects := false
-		for _, q := range c.recs {
-			if q != r && q.Call > r.Call && q.Ret < r.Ret && q.Ret != 0 {
-				nestedEffects = true
-			}
-		}
+		nestedEffects := len(desc) > 0
 		if !nestedEffects && b-a != len(own) {
 			c.fail("ledger-count", "%s lowered Count by %d (from %d to %d) but fired %d reports", r, b-a, b, a, len(own))
 		}
@@ -278,7 +285,7 @@ func (c *seqCtx) checkRec(r *Rec) {
 			c.fail("model", "expected (v%d,true), got (v%d,%v): %s", v, r.Val, r.Ok, r)
 		}
 	}
-	kids := children(c.recs, r)
+	kids := c.tree.kids[r]
 	runKids := func() {
 		for _, q := range kids {
 			c.checkRec(q)
@@ -566,7 +573,7 @@ func (c *seqCtx) checkRangeSeq(r *Rec, kids []*Rec) {
 	for _, q := range kids {
 		c.checkRec(q)
 	}
-	wrote, removed := effectsInside(c.recs, r, before)
+	wrote, removed := effectsInside(c.tree.descendants(r, nil), before)
 	seen := map[int]bool{}
 	for _, kv := range r.Visits {
 		if seen[kv.K] {
@@ -602,7 +609,7 @@ func (c *seqCtx) checkRangeSeq(r *Rec, kids []*Rec) {
 
 // effectsInside: what the calls nested (at any depth) inside r wrote and
 // removed; used to judge a traversal whose visitor mutates the container.
-func effectsInside(recs []*Rec, r *Rec, before map[int]int64) (map[int]map[int64]bool, map[int]bool) {
+func effectsInside(desc []*Rec, before map[int]int64) (map[int]map[int64]bool, map[int]bool) {
 	wrote := map[int]map[int64]bool{}
 	removed := map[int]bool{}
 	put := func(k int, v int64) {
@@ -611,10 +618,7 @@ func effectsInside(recs []*Rec, r *Rec, before map[int]int64) (map[int]map[int64
 		}
 		wrote[k][v] = true
 	}
-	for _, q := range recs {
-		if q == r || !(q.Call > r.Call && q.Ret < r.Ret && q.Ret != 0) {
-			continue
-		}
+	for _, q := range desc {
 		switch q.Op.K {
 		case CSet, CSetDefault, CSetForever, CGetOrSet, CGetAndSet, CGetOrCompute, MStore, MLoadOrStore, MLoadAndStore, MLoadOrCompute:
 			put(q.Op.Key, q.Op.Val)
